@@ -68,6 +68,11 @@ func (d *DBFT[H]) checkPreCommit() {
 	}
 
 	d.preBlock = d.CreatePreBlock()
+	if d.preBlock == nil {
+		// NewPreBlockFromContext may fail to construct a PreBlock.
+		d.Logger.Warn("can't construct PreBlock, waiting for more PreCommits to be collected")
+		return
+	}
 
 	if !d.preBlockProcessed {
 		d.Logger.Info("processing PreBlock",
@@ -127,6 +132,11 @@ func (d *DBFT[H]) checkCommit() {
 	}
 
 	d.block = d.CreateBlock()
+	if d.block == nil {
+		// NewBlockFromContext may fail to construct a Block.
+		d.Logger.Warn("can't construct Block, waiting for more Commits to be collected")
+		return
+	}
 	hash := d.block.Hash()
 
 	d.Logger.Info("approving block",
